@@ -380,6 +380,13 @@ let model (line : string) : string =
           Hashtbl.add used k ();
           m := step cfg progs (ONew (id, pid, r, a, b, c', d)) !m
         end
+      | Op (OShow id) ->
+        (match t_find id !m.m_root.r_tree with
+         | Some _ ->
+           sep (); pr "SH W=%d U=" (iz id); pr_tree !m.m_root.r_tree;
+           m := step cfg progs (OShow id) !m;
+           pr " T="; pr_tree !m.m_root.r_tree
+         | None -> m := step cfg progs (OShow id) !m)
       | Op o -> m := step cfg progs o !m
       | Key ->
         sep (); pr "K T="; pr_tree !m.m_root.r_tree;
